@@ -164,6 +164,13 @@ CORPUS["C06"] = [
     M("Cherenkov threshold from n instead of n^2", (CPH, "        eCthres = np.reciprocal(np.power(AirN, 2))", "        eCthres = np.reciprocal(np.power(AirN, 1))")),
     M("distance with cos instead of sin", (CPH, "        DistStep = np.sin(AngE, dtype=self.dtype)\n        DistStep /= np.sin(ThetView, dtype=self.dtype)", "        DistStep = np.cos(AngE, dtype=self.dtype)\n        DistStep /= np.sin(ThetView, dtype=self.dtype)")),
     M("one array gathered with an older mask", (CPH, "        ThetPrpA = ThetPrpA[mask]\n        AirN = AirN[mask]", "        ThetPrpA = ThetPrpA[zsave <= self.zmax][: mask.sum()]\n        AirN = AirN[mask]")),
+    M("Rayleigh scale 2974 -> 2970", (CPH, "        TrRayl = np.divide(-delgram, 2974, dtype=self.dtype)", "        TrRayl = np.divide(-delgram, 2970, dtype=self.dtype)")),
+    M("Rayleigh lambda^-3", (CPH, "        TrRb = np.power(TrRb, 4, dtype=self.dtype)", "        TrRb = np.power(TrRb, 3, dtype=self.dtype)")),
+    M("ozone factor dropped from the yield", (CPH, "        SPYield = PYield * TrRayl * TrOz * aTrans * RN[..., None]", "        SPYield = PYield * TrRayl * aTrans * RN[..., None]")),
+    M("Hillas z0 0.59 -> 0.95", (CPH, "        xhill = np.sqrt(uhill, dtype=self.dtype) - self.dtype(0.59)", "        xhill = np.sqrt(uhill, dtype=self.dtype) - self.dtype(0.95)")),
+    M("Hillas w(E) denominator coefficient", (CPH, "            0.0054 * ehillave * (1 + vhill) / (1 + 13 * vhill + 8.3 * vhill**2)", "            0.0054 * ehillave * (1 + vhill) / (1 + 31 * vhill + 8.3 * vhill**2)")),
+    M("viewing angle with sin instead of cos", (CPH, "        ThetView *= np.cos(ThetProp, dtype=self.dtype)", "        ThetView *= np.sin(ThetProp, dtype=self.dtype)")),
+    M("propagation angle ratio inverted", (CPH, "        tp = (self.RadE + self.zmax) / (self.RadE + z)", "        tp = (self.RadE + z) / (self.RadE + self.zmax)")),
     B("Greisen spelled with 1.5", (CPH, "                t[mask] * (1 - self.dtype(3 / 2) * np.log(s[mask], dtype=self.dtype)),", "                t[mask] * (1 - self.dtype(1.5) * np.log(s[mask], dtype=self.dtype)),")),
     B("track length with named temporaries", (CPH, "        t2 = np.divide(t1, (E0 + eCthres), dtype=self.dtype)", "        denom = E0 + eCthres\n        t2 = np.divide(t1, denom, dtype=self.dtype)")),
     B("einsum index letters renamed", (CPH, '        uhill = np.einsum("zj,ze->zje", athetaj, poweha, dtype=self.dtype)', '        uhill = np.einsum("sr,se->sre", athetaj, poweha, dtype=self.dtype)')),
